@@ -106,6 +106,11 @@ class LayoutRules:
             S = p.menv.get(('objectSize',))
             H = p.menv.get(('headerSize',))
             tainted = bool(p.stale)
+            if tainted:
+                # attributed to L8 below; still an instance the rules looked at
+                for r_ in ('L3', 'L4'):
+                    if r_ in rules and is_obj:
+                        rep.count(r_)
             if 'L3' in rules and is_obj and not tainted:
                 rep.count('L3')
                 if S is None:
@@ -173,7 +178,7 @@ class LayoutRules:
                     seen.add((it.file, it.line))
                     rep.count('L6')
                     cap = I.container_size(it.path, p).scale(it.elem or 1)
-                    ok = cap == it.width
+                    ok = sym.drop_trunc(cap) == sym.drop_trunc(it.width)   # equal for every length the field can represent
                     rep.ob('L6', '%s|payload:%s' % (short(it.fn), fmt_path(it.path)), ok, self.site(it),
                            '%s: emits %r bytes of %s which holds %r bytes%s' % (short(it.fn), it.width, fmt_path(it.path), cap,
                            '' if ok else ' - the length written is not derived from the container (missing pre-processing)'), nontrivial=True)
@@ -246,10 +251,12 @@ class LayoutRules:
         sc = short(cls)
         Iw, wpaths = self.write_paths(cls)
         for W in wpaths:
-            if W.thrown or W.stale:
+            if W.thrown:
                 continue
-            g = guards_str(W.guards)
             rep.count('L1')
+            if W.stale:
+                continue   # the writer's own guards are inconsistent (L8 reports it); nothing to read back
+            g = guards_str(W.guards)
             Ir = Interp(self.F, cls, 'read', stream=W.items)
             Ir.bounds = dict(Iw.bounds)
             init = St()
@@ -294,7 +301,7 @@ class LayoutRules:
                                              self.site(it)))
                     if it.kind == 'bytes':
                         cap = Ir.container_size(it.path, R).scale(it.elem or 1)
-                        if cap != chunk.width:
+                        if sym.drop_trunc(cap) != sym.drop_trunc(chunk.width):
                             problems.append(('L1', 'length:' + fmt_path(it.path),
                                              'payload %s: %r bytes written, container holds %r bytes after read()' %
                                              (fmt_path(it.path), chunk.width, cap), self.site(it)))
@@ -336,7 +343,9 @@ class LayoutRules:
             problems = []
             for W in wpaths:
                 wg = guards_str(W.guards[len(R.guards):])
-                recomputed = {a[0] for a in W.assigned}
+                # fields the encoder recomputes by design: the header's size fields, and members assigned from a
+                # container size / size function (a constant assignment is *not* a recomputation: it destroys the value read)
+                recomputed = {a[0] for a in W.assigned if not (a[3] or {}).get('literal')}
                 ri = [i for i in R.items]
                 wi = [i for i in W.items]
                 n = min(len(ri), len(wi))
